@@ -390,7 +390,10 @@ func (g *world) makeTx(ins []uinfo, nOut int, salt uint64) *types.Tx {
 		nOut = 1
 	}
 	const minVote = 100000000 // consensus.MinVoteOutputAmount
-	left := sum - cl.DefaultFee
+	left := uint64(0) // dust inputs (only reachable through the deliberately invalid kinds) leave nothing to pay out
+	if sum > cl.DefaultFee {
+		left = sum - cl.DefaultFee
+	}
 	kinds := make([]int, nOut) // 0 normal, 1 vote, 2 contract registration
 	nVote := 0
 	for i := range kinds {
@@ -689,6 +692,11 @@ type refused struct {
 func (r *refused) Error() string {
 	if r.label < 0 {
 		return fmt.Sprintf("class=unexpected-error: the valid trunk block at height %d (empty blocks; block 15 spends the reward of height 5 exactly at maturity) is refused by a fresh node (%s)", -r.label, r.why)
+	}
+	if strings.Contains(r.why, "voting lock time") {
+		// the node with history connected a veto of a still-locked vote output: only possible when the
+		// output's creation height was lost in a reorganisation (recorded finding C10-vote-utxo-height-lost)
+		return fmt.Sprintf("class=vote-utxo-height-lost-acceptance: block %d of the main chain of the node with history vetoes a vote output that is still locked and is refused by a fresh node fed only that chain (%s)", r.label, r.why)
 	}
 	return fmt.Sprintf("class=acceptance: block %d of the main chain of the node with history is refused by a fresh node fed only that chain (%s)", r.label, r.why)
 }
